@@ -469,24 +469,8 @@ theorem rawLogEntry_of_rfc (leafInput extraData : Bytes) (l : Rfc.MerkleTreeLeaf
     refine ⟨⟨leafVal leaf, asn1CertVal e.preCertificate, .list (e.chain.map asn1CertVal)⟩, ?_, rfl, rfl, rfl⟩
     simp [rawLogEntryFromLeaf, hla, leafVal, teVal, he, signedEntryVals, entryTypeOf, c2, c3, hca, precertChainVal]
 
-/-- **The wiring of the wrappers, as the hand models assume it, regenerated from the source on every run**: which struct literal
-`SerializeSCTSignatureInput` / `SerializeSTHSignatureInput` marshal and where each field comes from (the SCT's version,
-timestamp and *extensions*; the entry's type and body), that `LeafHashForLeaf` hashes `TreeLeafPrefix ‖ tls.Marshal(*leaf)`,
-which three `tls.Unmarshal` calls `RawLogEntryFromLeaf` makes, what `ExtraDataForChain` marshals and that `buildLogLeaf` chooses
-it exactly when no chain hash is given. -/
-theorem wrappers_as_modelled :
-    Gen.sctInputAssign = ["input := CertificateTimestamp{ SCTVersion: sct.SCTVersion, SignatureType: CertificateTimestampSignatureType, Timestamp: sct.Timestamp, EntryType: entry.Leaf.TimestampedEntry.EntryType, Extensions: sct.Extensions, }"] ∧
-    Gen.sctInputX509Assign = ["input.X509Entry = entry.Leaf.TimestampedEntry.X509Entry"] ∧
-    Gen.sctInputPrecertAssign = ["input.PrecertEntry = &PreCert{ IssuerKeyHash: entry.Leaf.TimestampedEntry.PrecertEntry.IssuerKeyHash, TBSCertificate: entry.Leaf.TimestampedEntry.PrecertEntry.TBSCertificate, }"] ∧
-    Gen.sctInputMarshal = ["tls.Marshal(input)"] ∧
-    Gen.sthInputAssign = ["input := TreeHeadSignature{ Version: sth.Version, SignatureType: TreeHashSignatureType, Timestamp: sth.Timestamp, TreeSize: sth.TreeSize, SHA256RootHash: sth.SHA256RootHash, }"] ∧
-    Gen.sthInputMarshal = ["tls.Marshal(input)"] ∧
-    Gen.leafHashMarshal = ["tls.Marshal(*leaf)"] ∧ Gen.leafHashData = ["data := append([]byte{TreeLeafPrefix}, leafData...)"] ∧
-    Gen.leafHashSum = ["sha256.Sum256(data)"] ∧
-    Gen.rawLogEntryUnmarshal = ["tls.Unmarshal(entry.LeafInput, &ret.Leaf)", "tls.Unmarshal(entry.ExtraData, &certChain)", "tls.Unmarshal(entry.ExtraData, &precertChain)"] ∧
-    Gen.extraDataAssign = ["extra = ct.PrecertChainEntry{ PreCertificate: cert, CertificateChain: chain, }", "extra = ct.CertificateChain{Entries: chain}"] ∧
-    Gen.buildLogLeafChoice = "chainHash == nil" := by
-  decide +kernel
+/-! `wrappers_as_modelled` (the source-text tie of the wrappers' wiring) lives in `CTV/Props/C04Wrappers.lean`, so that modules which
+import this file for `rawLogEntry_of_rfc` (C07b) do not depend on the text of `buildLogLeaf`. -/
 
 /-- `ExtraDataForChain` / `BuildLogLeaf`: the stored extra data is RFC 6962 §4.6's — the `certificate_chain` of an X.509 entry (also
 for an empty chain: `00 00 00`), the whole `PrecertChainEntry` of a precertificate entry. -/
